@@ -140,7 +140,38 @@ def spec_single() -> Dict[str, Any]:
     return {"containers": [{"name": "c18single", "layers": [solo, v1, v2]}]}
 
 
-GENERATED = {"flat": spec_flat, "tree": spec_tree, "single": spec_single}
+def spec_shared() -> Dict[str, Any]:
+    """Two containers (two ODX-D documents): protocol -> base variant -> ECU variant with communication parameters in the
+    first, an ECU-SHARED-DATA layer (DOPs and one service, no communication parameters possible) in the SECOND one, so
+    that the shared-data layer comes after layers with communication parameters in the database's layer list.  The base
+    variant inherits from the shared data."""
+    subset = {"name": "C18SS", "dops": [{"name": "cpu16", "dct": U(16)}],
+              "comparams": [{"name": "CP_A", "dop": "cpu16", "default": 1}, {"name": "CP_B", "dop": "cpu16", "default": 2},
+                            {"name": "CP_C", "dop": "cpu16", "default": 3}]}
+    cspec = {"name": "C18SSPEC", "prot_stacks": [{"name": "PS", "subsets": [("C18SS", "C18SS")]}]}
+
+    def cp(name: str, value: int) -> Dict[str, Any]:
+        return {"id": "C18SS." + name, "docref": "C18SS", "value": value, "protocol": "SP"}
+
+    proto = {"type": "PROTOCOL", "name": "SP", "comparam_spec": "C18SSPEC", "prot_stack": "PS", "comparams": [cp("CP_A", 10), cp("CP_B", 20)]}
+    base = {"type": "BASE-VARIANT", "name": "SB",
+            "parents": [{"layer": "SP"}, {"layer": "SD", "docref": "c18shared_b", "doctype": "CONTAINER"}],
+            "dops": [{"name": "sb8", "dct": U(8)}, {"name": "sb8x", "dct": U(8)}],
+            "msgs": [{"kind": "REQUEST", "name": "RQ_x", "params": [cc("sid", 0x27, 0), val("lvl", "sb8", 1)]},
+                     {"kind": "POS-RESPONSE", "name": "PR_x", "params": [cc("sid", 0x67, 0), mrp("lvl", 1, 1, 1)]}],
+            "svcs": [{"name": "svc_x", "request": "RQ_x", "pos": ["PR_x"]}],
+            "comparams": [cp("CP_C", 30)]}
+    ecu = {"type": "ECU-VARIANT", "name": "SE", "parents": [{"layer": "SB"}], "dops": [{"name": "se8", "dct": U(8)}]}
+    shared = {"type": "ECU-SHARED-DATA", "name": "SD", "dops": [{"name": "sd8", "dct": U(8)}, {"name": "sd16", "dct": U(16)}, {"name": "sd8x", "dct": U(8)}],
+              "msgs": [{"kind": "REQUEST", "name": "RQ_s", "params": [cc("sid", 0x28, 0), val("w", "sd8", 1)]},
+                       {"kind": "POS-RESPONSE", "name": "PR_s", "params": [cc("sid", 0x68, 0), val("v", "sd16", 1)]}],
+              "svcs": [{"name": "svc_s", "request": "RQ_s", "pos": ["PR_s"]}]}
+    return {"containers": [{"name": "c18shared_a", "layers": [proto, base, ecu], "foreign_layer_types": {"SD": "ECU-SHARED-DATA"}},
+                           {"name": "c18shared_b", "layers": [shared]}],
+            "comparam_subsets": [subset], "comparam_specs": [cspec]}
+
+
+GENERATED = {"flat": spec_flat, "tree": spec_tree, "single": spec_single, "shared": spec_shared}
 
 
 def pdx_files(path: str) -> Files:
